@@ -404,8 +404,7 @@ class Solver:
         if kind == "z3":
             cmd = ["z3", "-in", f"-t:{timeout_ms}"]
         else:
-            cmd = ["cvc5", "--lang", "smt2", "--incremental", f"--tlimit-per={timeout_ms}", "--produce-models",
-                   "--nl-cov"]
+            cmd = ["cvc5", "--lang", "smt2", "--incremental", f"--tlimit-per={timeout_ms}", "--produce-models"]
         self.p = subprocess.Popen(cmd, stdin=subprocess.PIPE, stdout=subprocess.PIPE, stderr=subprocess.STDOUT,
                                   text=True, bufsize=1)
         self.queries = 0
